@@ -1984,7 +1984,7 @@ func NewNextHopCondition(c []string) (*NextHopCondition, error) {
 
 	list, err := NewNextHopSet(c)
 	if err != nil {
-		return nil, nil
+		return nil, err
 	}
 
 	return &NextHopCondition{
